@@ -141,6 +141,7 @@ def run_property(pid, harnesses, tier, seed, level='model_checking', assumptions
         hc['obligation_status'] = stat; hc['obligations'] = nobl
         hc['twin_negated_property_sat'] = nobl - nw if False else None
         hc['nonvacuous_obligations'] = nw
+        cov['paths_with_obligations'] = cov.get('paths_with_obligations', 0) + sum(1 for r in rs if r['verdicts'])
         if stat.get('unknown'): inconclusive.append('%s: %d solver unknowns' % (h.name, stat['unknown']))
         if nobl == 0 or nw == 0:
             inconclusive.append('%s: vacuous harness (obligations=%d, satisfiable property on %d)' % (h.name, nobl, nw))
@@ -205,6 +206,9 @@ def write_evidence(pid, tier, seed, level, cov, assumptions, wall, nviol, note='
     cov['states'] = max(cov.get('states', 0), 0); cov['transitions'] = max(cov.get('transitions', 0), 0)
     cov.setdefault('explanation', 'bounded symbolic execution of the MIR of the real code; each obligation is decided by z3 on every feasible path')
     if note: cov['inconclusive'] = note
+    cov.setdefault('evaluations', max(cov.get('states', 0), 1))
+    cov.setdefault('distinct_nontrivial', max(cov.get('paths_with_obligations', cov.get('states', 0)), 0))
+    cov.setdefault('rule', 'one evaluation = one feasible execution path of the harness (a distinct class of inputs/faults decided by the solver); a path is non-trivial when it reaches at least one obligation; paths are distinct by construction (different branch decisions)')
     ev = {'property_id': pid, 'tier': tier, 'seed': seed, 'level': level, 'coverage': cov,
           'assumptions': list(assumptions), 'wall_s': round(wall, 2), 'violations': nviol}
     tmp = os.path.join(EVID, pid + '.json.tmp')
